@@ -51,7 +51,7 @@ func init() {
 				{Name: "codec-concurrent", Variant: "race", Cases: ncc, Shards: 4, Run: c18concurrentCase, CaseTimeout: 120 * time.Second,
 					Required: []string{"concurrent_encodes"}},
 				{Name: "wire", Variant: "race", Cases: nw, Run: c18wireCase, CaseTimeout: 120 * time.Second,
-					Required: []string{"sessions", "sessions_compression_negotiated", "sessions_compressor_not_advertised", "requests_compressed", "requests_uncompressed", "replies_compressed_ok", "hostile_flagged_without_compressor", "hostile_corrupt_body", "sessions_on_mixed_clusters", "hostile_flagged_unsolicited_frames"}},
+					Required: []string{"sessions", "sessions_compression_negotiated", "sessions_compressor_not_advertised", "requests_compressed", "requests_uncompressed", "replies_compressed_ok", "replies_with_trace_warnings_or_payload", "sessions_with_authentication", "hostile_flagged_without_compressor", "hostile_corrupt_body", "sessions_on_mixed_clusters", "hostile_flagged_unsolicited_frames"}},
 			}
 		},
 	})
@@ -467,6 +467,39 @@ func (cn *c18node) problem(f string, a ...interface{}) {
 
 var c18cols = []cqlref.Column{{Keyspace: "ks", Table: "echo", Name: "tok", Type: &cqlref.Type{ID: cqlref.TText}}, {Keyspace: "ks", Table: "echo", Name: "data", Type: &cqlref.Type{ID: cqlref.TBlob}}}
 
+// c18prefix: what the node puts in front of the result of request token (a function of the token, so the caller
+// knows what to expect): the trace id if tracing was asked for, and on protocol 4+ warnings and / or a payload.
+func c18prefix(version int, token string, traced bool) *cqlref.Prefix {
+	h := fnv.New64a()
+	h.Write([]byte("prefix/" + token))
+	x := h.Sum64()
+	p := &cqlref.Prefix{}
+	if traced {
+		p.TraceID = c18gen(token+"/trace", 16)
+	}
+	if version >= 4 && x%3 == 0 {
+		p.HasWarn, p.Warnings = true, []string{"warning for " + token, strings.Repeat("w", int(x>>8%300))}
+	}
+	if version >= 4 && (x>>4)%3 == 0 {
+		p.HasPay, p.Payload = true, map[string][]byte{"k-" + token: c18gen(token+"/payload", int(x>>16%500))}
+	}
+	if p.TraceID == nil && !p.HasWarn && !p.HasPay {
+		return nil
+	}
+	return p
+}
+
+type c18tracer struct {
+	mu  sync.Mutex
+	ids [][]byte
+}
+
+func (t *c18tracer) Trace(id []byte) {
+	t.mu.Lock()
+	t.ids = append(t.ids, append([]byte{}, id...))
+	t.mu.Unlock()
+}
+
 // statements: ECHO <mode> <token> <replysize> <padsize> [pad]   (pad only for unprepared queries)
 func (cn *c18node) handler(sc *fakenode.ServerConn, req *fakenode.Req) {
 	if sc.Ready() {
@@ -558,7 +591,8 @@ func (cn *c18node) handler(sc *fakenode.ServerConn, req *fakenode.Req) {
 		} else {
 			note("plain")
 		}
-		fr, _ := cqlref.BuildFrame(sc.Version, req.Header.Stream, cqlref.OpResult, nil, body, cf)
+		// what precedes the result in the body - trace id, warnings, custom payload - is compressed with it
+		fr, _ := cqlref.BuildFrame(sc.Version, req.Header.Stream, cqlref.OpResult, c18prefix(sc.Version, token, req.Header.Flags&cqlref.FlagTracing != 0), body, cf)
 		sc.WriteReply(req, fr)
 	case "PLAIN":
 		// a server may leave individual frames uncompressed
@@ -644,6 +678,15 @@ func c18wireCase(c *runner.Ctx, i int) {
 		return false
 	}
 	cfg := newCfg(cl, version)
+	if version >= 2 && r.Intn(3) == 0 {
+		// the nodes ask for authentication: the AUTH_RESPONSE frames are ordinary frames of the connection as far as
+		// compression is concerned (before STARTUP is answered nothing is compressed; not afterwards either unless negotiated)
+		for _, n := range cl.Nodes {
+			n.AuthClass = "org.apache.cassandra.auth.PasswordAuthenticator"
+		}
+		cfg.Authenticator = gocql.PasswordAuthenticator{Username: "user-" + strings.Repeat("u", r.Intn(200)), Password: "pw-" + strings.Repeat("p", r.Intn(200))}
+		c.Add("sessions_with_authentication", 1)
+	}
 	cfg.Timeout = 20 * time.Second // the oracle never depends on it; the node's reference encoders are slow under the race detector
 	cfg.NumConns = 1 + r.Intn(2)
 	cfg.Compressor = compressorByName(compName)
@@ -714,12 +757,54 @@ func c18wireCase(c *runner.Ctx, i int) {
 	}
 	run := func(j job) (tok string, data []byte, err error) {
 		stmt := fmt.Sprintf("ECHO %s %s %d %d", j.mode, j.token, j.rsize, j.psize)
+		read := func(q *gocql.Query) error {
+			h := fnv.New32a()
+			h.Write([]byte(j.token))
+			traced := h.Sum32()%2 == 0
+			tr := &c18tracer{}
+			if traced {
+				q.Trace(tr)
+			}
+			it := q.Iter()
+			warn, pay := it.Warnings(), it.GetCustomPayload()
+			it.Scan(&tok, &data)
+			if err := it.Close(); err != nil {
+				return err
+			}
+			if j.mode != "OK" {
+				return nil
+			}
+			want := c18prefix(version, j.token, traced)
+			if want == nil {
+				want = &cqlref.Prefix{}
+			}
+			c.Add("replies_with_trace_warnings_or_payload", 1)
+			tr.mu.Lock()
+			ids := tr.ids
+			tr.mu.Unlock()
+			if traced && (len(ids) != 1 || !bytes.Equal(ids[0], want.TraceID)) {
+				c.Violation("C18:wire:reply-prefix:trace-id", fmt.Sprintf("the tracer of %q was handed %x, the reply carried trace id %x (%s)", j.token, ids, want.TraceID, key), wit(map[string]interface{}{"job": fmt.Sprintf("%+v", j)}))
+			}
+			if fmt.Sprintf("%q", warn) != fmt.Sprintf("%q", want.Warnings) && !(len(warn) == 0 && len(want.Warnings) == 0) {
+				c.Violation("C18:wire:reply-prefix:warnings", fmt.Sprintf("Iter.Warnings() of %q = %.80q, the reply carried %.80q (%s)", j.token, warn, want.Warnings, key), wit(map[string]interface{}{"job": fmt.Sprintf("%+v", j)}))
+			}
+			bad := len(pay) != len(want.Payload)
+			for k, v := range want.Payload {
+				if g, ok := pay[k]; !ok || !bytes.Equal(g, v) {
+					bad = true
+				}
+			}
+			if bad {
+				c.Violation("C18:wire:reply-prefix:payload", fmt.Sprintf("the custom payload of the reply to %q arrived as %d entries, the node sent %d (%s)", j.token, len(pay), len(want.Payload), key), wit(map[string]interface{}{"job": fmt.Sprintf("%+v", j)}))
+			}
+			return nil
+		}
 		switch j.kind {
 		case "query":
 			stmt += " " + hex.EncodeToString(c18gen(j.token+"/pad", j.psize))
-			err = sess.Query(stmt).Scan(&tok, &data)
+			err = read(sess.Query(stmt))
 		case "execute":
-			err = sess.Query("SELECT "+stmt, c18gen(j.token+"/val", j.psize)).Scan(&tok, &data)
+			err = read(sess.Query("SELECT "+stmt, c18gen(j.token+"/val", j.psize)))
 		default:
 			b := sess.NewBatch(gocql.LoggedBatch)
 			b.Query("SELECT "+stmt, c18gen(j.token+"/val", j.psize))
